@@ -207,7 +207,7 @@ func consCores(prop, tier string) []consCore {
 			}
 		}
 	case "C11":
-		for pat := 0; pat < 4; pat++ {
+		for pat := 0; pat < 6; pat++ {
 			for s := 0; s <= 14; s++ {
 				for _, b := range []int{1, 3} {
 					for _, rc := range []bool{true, false} {
@@ -375,6 +375,25 @@ func consCoreScenario(prop, tier string, idx int) *consScenario {
 			add(plain("0"))
 			add(dataRec(b, true, 1, "b1"))
 			add(markerRec(b, true))
+		case 4, 5: // three (pat 4) / four (pat 5) aborted transactions of different ids staggered inside one fetch: the index has many orders
+			ids := []int64{9001, 9002, 9003, 9004}[:c.pat-1]
+			firsts := make([]int64, len(ids))
+			add(plain("0"))
+			for i, id := range ids {
+				firsts[i] = add(dataRec(id, true, 0, fmt.Sprintf("x%d-0", i)))
+				add(plain(fmt.Sprintf("s%d", i)))
+			}
+			for i, id := range ids {
+				add(dataRec(id, true, 1, fmt.Sprintf("x%d-1", i)))
+				l := add(markerRec(id, false))
+				ab = append(ab, sarama.VSimAborted{PID: id, FirstOffset: firsts[i], LastOffset: l})
+			}
+			add(plain("9"))
+			add(dataRec(ids[0], true, 2, "x0-2"))
+			add(markerRec(ids[0], true))
+		}
+		if c.pat >= 4 {
+			sc.MaxBatches = 12 // the whole staggered region in one answer
 		}
 		for i := range lg {
 			lg[i].Offset = sc.Base + int64(i)
@@ -387,7 +406,7 @@ func consCoreScenario(prop, tier string, idx int) *consScenario {
 			s = len(lg)
 		}
 		sc.StartKind, sc.StartOff = []string{"literal"}, []int64{sc.Base + int64(s)}
-		sc.ShuffleAborted = idx%2 == 0
+		sc.ShuffleAborted = idx%2 == 0 || c.pat >= 4
 	}
 	if sc.Aborted == nil {
 		sc.Aborted = [][]sarama.VSimAborted{nil}
